@@ -28,6 +28,14 @@ func verifRoot() string {
 	return "/verif"
 }
 
+// outRoot: where evidence/ and replays/ are written (scratch directory for runs against mutated copies).
+func outRoot() string {
+	if v := os.Getenv("VERIF_OUT"); v != "" {
+		return v
+	}
+	return verifRoot()
+}
+
 func splitmix(x uint64) uint64 {
 	x += 0x9e3779b97f4a7c15
 	z := x
@@ -743,7 +751,7 @@ func cmdCheck(args []string) int {
 			continue
 		}
 		// write, minimise, verify in a fresh process
-		dir := filepath.Join(verifRoot(), "replays")
+		dir := filepath.Join(outRoot(), "replays")
 		_ = os.MkdirAll(dir, 0755)
 		raw := filepath.Join(tmp, fmt.Sprintf("viol-%d.json", fv.Index))
 		fv.Plan.Violation = &fv.Violation
@@ -835,8 +843,8 @@ func cmdCheck(args []string) int {
 		},
 	}
 	eb, _ := json.MarshalIndent(ev, "", " ")
-	_ = os.MkdirAll(filepath.Join(verifRoot(), "evidence"), 0755)
-	if err := os.WriteFile(filepath.Join(verifRoot(), "evidence", prop+".json"), eb, 0644); err != nil {
+	_ = os.MkdirAll(filepath.Join(outRoot(), "evidence"), 0755)
+	if err := os.WriteFile(filepath.Join(outRoot(), "evidence", prop+".json"), eb, 0644); err != nil {
 		fmt.Println("check: cannot write evidence:", err)
 		return 2
 	}
